@@ -168,6 +168,10 @@ func RsCommandPayload(name, shape, stream string) []byte {
 		return nm[:len(nm)-2]
 	case "cuttid":
 		return rsCat(nm, rsAmfNum(1)[:5])
+	case "lstrmax": // long-string marker announcing 2^32-1 bytes
+		return rsCat([]byte{0x0c, 0xff, 0xff, 0xff, 0xff}, []byte("abcdefgh"), rsAmfNum(1), null)
+	case "lstrwrap": // ... 2^32-4 bytes (4 + length wraps to 0 in 32-bit arithmetic)
+		return rsCat([]byte{0x0c, 0xff, 0xff, 0xff, 0xfc}, []byte("abcdefgh"), rsAmfNum(1), null)
 	}
 	switch name {
 	case "connect":
@@ -224,6 +228,8 @@ func RsCommandPayload(name, shape, stream string) []byte {
 		case "cutstr":
 			s := rsAmfStr(stream)
 			return rsCat(nm, rsAmfNum(3), null, s[:len(s)-1])
+		case "lstrname": // stream name as a long string announcing 2^32-3 bytes
+			return rsCat(nm, rsAmfNum(3), null, []byte{0x0c, 0xff, 0xff, 0xff, 0xfd}, []byte(stream), rsAmfStr("live"))
 		}
 	case "play":
 		switch shape {
